@@ -5,11 +5,14 @@
 import FsModel.PathDriver
 import FsModel.RefDriver
 import FsModel.FileDriver
+import FsModel.CopyDriver
+import FsModel.ArchiveDriver
+import FsModel.RouteDriver
 
 open Fs
 
 def handlers : List (String → List String → Option String) :=
-  [ PathDriver.handle, RefDriver.handle, FileDriver.handle ]
+  [ PathDriver.handle, RefDriver.handle, FileDriver.handle, CopyDriver.handle, ArchiveDriver.handle, RouteDriver.handle ]
 
 def dispatch (line : String) : String :=
   match (line.trimAscii.toString.splitOn " ").filter (· ≠ "") with
